@@ -29,8 +29,34 @@ RULE = ('index cases = histories of ADDED/MODIFIED/DELETED over 4 objects (one r
 
 HEADER = fw.STD_HEADER + 'From KV Require Import Base.Dicts Model.Index.\n'
 
-OBJECTS = [('ns', 'a', 'u1'), ('ns', 'b', 'u2'), (None, 'c', 'u3'), ('ns', 'a', 'u4')]   # u4: 'a' re-created
+# u4: 'a' deleted and re-created (new uid, same namespace/name; the two incarnations have separate workers in kopf, so
+# their events interleave freely); u5: a namesake of another resource kind served by the same index functions
+OBJECTS = [('ns', 'a', 'u1'), ('ns', 'b', 'u2'), (None, 'c', 'u3'), ('ns', 'a', 'u4'), ('ns', 'a', 'u5')]
+OBJ_KIND = [0, 0, 0, 0, 1]
+KINDS = [('kopfexamples', 'KopfExample'), ('otherkinds', 'OtherKind')]
 ONUM = {o: i for i, o in enumerate(OBJECTS)}
+KEYMAP: dict = {}     # whatever OperatorIndexers.make_key() makes of the bodies -> object number (keys are opaque)
+UNKNOWN_OBJ = 99
+
+
+def knum(a: Any) -> int:
+    """Object number of an internal store key; keys the harness cannot attribute show up as a model mismatch, not a crash."""
+    try:
+        if a in ONUM:
+            return ONUM[a]
+        return KEYMAP.get(a, UNKNOWN_OBJ)
+    except TypeError:
+        return UNKNOWN_OBJ
+
+
+def learn_keys(indexers: Any) -> None:
+    from kopf._cogs.structs import bodies
+    KEYMAP.clear()
+    for o in range(len(OBJECTS)):
+        try:
+            KEYMAP.setdefault(indexers.make_key(bodies.Body(body_of(o))), o)
+        except Exception:
+            pass
 KEYPOOL = [None, 'x', 'y', 'x', 1, ('ns', 'a'), 'ключ']
 VALPOOL = [1, True, 2, 0, False, 'v', 'w', [1], [True], {'n': 1}, {'n': True}, None, [], 'x']
 
@@ -65,8 +91,8 @@ def snap_index(index: Any) -> dict:
     """Internal state of a real Index (name-mangled attributes; AttributeError = observation point missing)."""
     items = index._Index__items
     rev = index._Index__reverse
-    return {'items': [(k, [(ONUM[a], v) for a, v in st._Store__items.items()]) for k, st in items.items()],
-            'rev': [(ONUM[a], list(ks)) for a, ks in rev.items()]}
+    return {'items': [(k, [(knum(a), v) for a, v in st._Store__items.items()]) for k, st in items.items()],
+            'rev': [(knum(a), list(ks)) for a, ks in rev.items()]}
 
 
 def c_index(s: dict) -> str:
@@ -181,6 +207,19 @@ def gen_result(r: Any, small: bool = False) -> Any:
     return out
 
 
+def guarded(ctx: fw.Ctx, name: str, fn: Any, *args: Any) -> None:
+    """An exception inside a driver or monitor is a broken correspondence of that piece, never the end of the search."""
+    import traceback
+    try:
+        fn(*args)
+    except Exception:
+        seen = ctx.__dict__.setdefault('_c17_harness_errors', set())
+        ctx.count('harness_errors', name)
+        if name not in seen:
+            seen.add(name)
+            ctx.correspondence_break(f'harness:{name}', {'error': traceback.format_exc()[-2500:]})
+
+
 class Cases:
     """Deduplicating collector: one differential case per distinct (pre-state, operation)."""
 
@@ -239,7 +278,7 @@ def level1(ctx: fw.Ctx, C: Cases) -> None:
     n = 0
     for ln in range(1, L + 1):
         for ops in itertools.product(alpha, repeat=ln):
-            level1_sequence(ctx, C, list(ops))
+            guarded(ctx, 'level1', level1_sequence, ctx, C, list(ops))
             n += 1
     ctx.count('sequences', 'index-exhaustive', n)
     for _ in range(ctx.scale(300, 8000)):
@@ -251,7 +290,7 @@ def level1(ctx: fw.Ctx, C: Cases) -> None:
             else:
                 res = gen_result(r)
                 ops.append(('replace', o, res if isinstance(res, dict) else {None: res}))
-        level1_sequence(ctx, C, ops)
+        guarded(ctx, 'level1', level1_sequence, ctx, C, ops)
         ctx.count('sequences', 'index-random')
 
 
@@ -266,7 +305,7 @@ def body_of(o: int, labels: dict | None = None) -> dict:
         meta['namespace'] = ns
     if labels:
         meta['labels'] = labels
-    return {'apiVersion': 'kopf.dev/v1', 'kind': 'KopfExample', 'metadata': meta, 'spec': {}}
+    return {'apiVersion': 'kopf.dev/v1', 'kind': KINDS[OBJ_KIND[o]][1], 'metadata': meta, 'spec': {}}
 
 
 def level2(ctx: fw.Ctx, C: Cases) -> None:
@@ -282,6 +321,7 @@ def level2(ctx: fw.Ctx, C: Cases) -> None:
     for _ in range(ctx.scale(250, 3000)):
         ixs = indexing.OperatorIndexers()
         ixs.ensure([_H(h) for h in hids])   # type: ignore[list-item]
+        learn_keys(ixs)
         ref = Reference(hids)
         ops = []
         shared = False
@@ -400,9 +440,10 @@ class Driver3:
         self.calls: list[str] = []
         for h in hcfgs:
             self._register(h, execution)
-        self.resource = references.Resource('kopf.dev', 'v1', 'kopfexamples', kind='KopfExample', namespaced=True)
+        self.resources = [references.Resource('kopf.dev', 'v1', plural, kind=kind, namespaced=True) for plural, kind in KINDS]
         self.indexers = indexing.OperatorIndexers()
         self.indexers.ensure(self.registry._indexing.get_all_handlers())
+        learn_keys(self.indexers)
         self.settings = configuration.OperatorSettings()
         self.default_backoff = int(self.settings.execution.default_backoff)
         self.memories: dict[int, Any] = {}
@@ -420,6 +461,7 @@ class Driver3:
         if h['backoff'] is not None:
             opts['backoff'] = h['backoff']
 
+        @kopf.index('otherkinds', id=hid, registry=self.registry, labels={'m-' + hid: kopf.PRESENT}, **opts)
         @kopf.index('kopfexamples', id=hid, registry=self.registry, labels={'m-' + hid: kopf.PRESENT}, **opts)
         async def fn(**_: Any) -> Any:
             self.calls.append(hid)
@@ -456,7 +498,7 @@ class Driver3:
         mem = self.memories.setdefault(o, self.indexing.IndexingMemory())
         with vloop.running(self.loop):
             t = self.loop.spawn(self.indexing.index_resource(
-                indexers=self.indexers, registry=self.registry, settings=self.settings, resource=self.resource,
+                indexers=self.indexers, registry=self.registry, settings=self.settings, resource=self.resources[OBJ_KIND[o]],
                 raw_event={'type': etype, 'object': raw}, memory=mem, logger=logging.getLogger('kv.c17'),
                 memo=ephemera.Memo(), body=bodies.Body(raw)))
             self.loop.settle()
@@ -622,14 +664,27 @@ CORPUS3.append(
       (1, 'DELETED', 1, [], {'h1': ['none'], 'h2': ['none']})]))
 
 
+CORPUS3.append(
+    # namesakes with different uids: 'a' (u1) is deleted and re-created (u4) and the old incarnation's DELETED is processed
+    # after the new one's ADDED (separate workers per uid); and an object of another kind (u5) with the same namespace/name
+    # under the same index functions.  The index must keep the values of the LIVE objects.
+    ([{'id': 'h1', 'errors': None, 'retries': None, 'backoff': None}],
+     [(0, None, 0, ['h1'], {'h1': ['res', {'x': 1}]}),
+      (0, 'ADDED', 4, ['h1'], {'h1': ['res', {'x': 5, 'z': 5}]}),
+      (1, 'ADDED', 3, ['h1'], {'h1': ['res', {'x': 2, 'y': 2}]}),
+      (0, 'DELETED', 0, ['h1'], {'h1': ['none']}),
+      (1, 'MODIFIED', 3, ['h1'], {'h1': ['none']}),
+      (0, 'DELETED', 4, ['h1'], {'h1': ['none']})]))
+
+
 def level3(ctx: fw.Ctx, C: Cases) -> None:
     r = ctx.rng
     for hcfgs, events in CORPUS3:
-        level3_history(ctx, C, hcfgs, events)
+        guarded(ctx, 'level3', level3_history, ctx, C, hcfgs, events)
         ctx.count('sequences', 'event-corpus')
     for _ in range(ctx.scale(300, 6000)):
         hcfgs = gen_hcfgs(r)
-        level3_history(ctx, C, hcfgs, gen_history(r, hcfgs))
+        guarded(ctx, 'level3', level3_history, ctx, C, hcfgs, gen_history(r, hcfgs))
         ctx.count('sequences', 'event-random')
 
 
@@ -652,15 +707,15 @@ def run(ctx: fw.Ctx) -> int:
         return ctx.finish(RULE)
 
     C = Cases()
-    level1(ctx, C)
-    level2(ctx, C)
-    level3(ctx, C)
+    guarded(ctx, 'level1-driver', level1, ctx, C)
+    guarded(ctx, 'level2-driver', level2, ctx, C)
+    guarded(ctx, 'level3-driver', level3, ctx, C)
     for name, by in C.by.items():
         ctx.differential(name, HEADER, list(by.values()), shard=60 if name == 'history' else 150)
 
-    gate.run_gate(ctx)
+    guarded(ctx, 'gate-driver', gate.run_gate, ctx)
     return ctx.finish(RULE, level_note=[
         'index keys of the model: None | str | int | (str, str); values: JSON without floats, compared by the store with '
-        'Python == (py_eqb); objects numbered injectively from (namespace, name, uid)',
+        'Python == (py_eqb); objects numbered injectively from (namespace, name, uid), incl. namesakes with different uids (a re-created object, an object of another kind under the same index functions); internal store keys are treated opaquely',
         'user index functions, filters and handler options are oracle inputs of the model (scripts)',
         'gate: asyncio.Condition/Lock semantics as observed under the stepped loop kv.vloop (CPython 3.12)'])
